@@ -53,7 +53,7 @@ def cli_case(build, mode, kind, explicit=False, early=False, midshow=False, c_lo
         with open(os.path.join(d, 'prog.py'), 'w', encoding='utf-8') as fh:
             # early: the program ends before any line of a profiled function has run (e.g. while checking its arguments)
             # midshow: the program asks for an intermediate report itself (the documented profile.show()) and then goes on
-            src = kplib.prog_text(n, k, kind, extra='crash(%r)' % kind if early else ('profile.show()' if midshow else ''))
+            src = kplib.prog_text(n, k, kind, extra='crash(%r)' % kind if early else (midshow if isinstance(midshow, str) else 'profile.show()' if midshow else ''))
             if explicit:
                 src = src.replace('try:\n    profile\nexcept NameError:\n    def profile(f):\n        return f\n', 'from line_profiler import profile\n')
             if c_locale:
@@ -301,6 +301,7 @@ def run(ctx):
     cli = [(m, k, False, False, False) for m in (['l', 'b', 'lm', 'lp'] if ctx.quick else list(kplib.MODES)) for k in kplib.KINDS] + [('explicit', k, True, False, False) for k in kplib.KINDS]
     cli += [(m, k, x, True, False) for (m, x) in ([('l', False), ('explicit', True)] if ctx.quick else [(m, False) for m in kplib.MODES] + [('explicit', True)]) for k in kplib.KINDS if k != 'none']
     cli += [('explicit', k, True, False, True) for k in kplib.KINDS]        # an intermediate profile.show() by the program, then more work
+    cli += [('explicit', k, True, False, 'profile.disable()') for k in kplib.KINDS]      # the program switches the decorator off half-way (later definitions stay undecorated); what is decorated goes on recording, and is reported
     cli += [('explicit', k, True, False, False, True) for k in kplib.KINDS]  # a session whose locale cannot encode text of the profiled source
     with cf.ThreadPoolExecutor(max_workers=12) as ex:
         cres = list(ex.map(lambda c: cli_case(build, *c), cli))
